@@ -1,19 +1,19 @@
 /* VERIF-GROUP
 {
  "property": ["C13", "C14"],
- "entry": "h_ptrheap_create",
- "enforce": ["ptrheap_create"],
+ "entry": "h_ptrheap_add",
+ "enforce": ["ptrheap_add"],
  "replace": [],
  "annotate": ["datastruct/ptrheap.c", "datastruct/elasticarray.c"],
  "specs": {"datastruct/elasticarray.c": "contracts/c13_elasticarray_bounds.spec"},
  "models": ["models/heap_realloc.c", "models/heap_memcpy.c"],
- "defines": ["VERIF_HALLOC", "HP_TARGET_PTRHEAP", "HP_MAXN=5"],
- "thorough_defines": ["HP_MAXN=7"],
- "matrix": {"HP_MODEL": [1, 2]},
+ "defines": ["VERIF_HALLOC", "HP_TARGET_PTRHEAP", "HP_ANYLAYOUT", "HP_MAXN=4"],
+ "thorough_defines": ["HP_MAXN=5"],
+ "matrix": {"HP_MODEL": [1]},
  "loop_contracts": false,
  "cbmc": ["--unwindset", "heapify.0:5,heapifyup.0:5", "--malloc-may-fail", "--malloc-fail-null", "--memory-leak-check"],
- "unwind": 7, "thorough_unwind": 9,
- "bounded": true, "bound": "heaps with <= 5 elements (quick) / <= 7 (thorough); all loops fully unwound",
+ "unwind": 6, "thorough_unwind": 7,
+ "bounded": true, "bound": "heaps with <= 4 elements (quick) / <= 5 (thorough), arbitrary slot -> record map incl. duplicate pointers; all loops fully unwound",
  "timeout": 600, "thorough_timeout": 3600,
  "assumptions": ["HP_MODEL=1: abstract user callbacks of harness/C13/hp_model.h; HP_MODEL=2: real struct timerrec, compar, setreccookie of timerqueue.c",
                  "slot k of the initial heap holds record object R[k]: symmetry reduction, sound for distinct elements because ptrheap.c never inspects element pointers (arbitrary layouts incl. duplicate pointers: groups *_any at 4 elements)",
@@ -24,36 +24,30 @@
 #include "hp_model.h"
 
 void
-h_ptrheap_create(void)
+h_ptrheap_add(void)
 {
 	HP_USE_RC_DECL(use_rc);
-	IN(size_t, N);
-	__CPROVER_assume(N <= HP_MAXN);
-	void ** ptrs = malloc(HP_MAXN * sizeof(void *));	/* capacity HP_MAXN, the contract speaks about ptrs[0..N) only */
-	__CPROVER_assume(ptrs != NULL);
-	hp_rec_t * R[HP_MAXN];
-	for (size_t k_ = 0; k_ < HP_MAXN; k_++) {
-		R[k_] = malloc(sizeof(hp_rec_t));
-		__CPROVER_assume(R[k_] != NULL);
-	}
-	for (size_t k_ = 0; k_ < HP_MAXN; k_++) {
-		if (k_ < N)
-			ptrs[k_] = R[HP_SEL_(k_)];
-	}
+	HP_MK_LIST(H_l, n, use_rc);
 	HP_MK_COOKIE(ck);
+	HP_MK_HEAP(H, n, ck, use_rc);
+	IN(size_t, psel);
+	__CPROVER_assume(psel < HP_MAXN);
+	void * ptr = R[psel];		/* with handles the contract requires it not to be in the heap already */
 	IN(size_t, gsel);
 	__CPROVER_assume(gsel < HP_MAXN);
 	g_hp_ptr = R[gsel];
-	struct ptrheap * H;
+	void * buf0 = H_l_ea->buf;
+	int rc;
 
-	H = ptrheap_create(HP_COMPAR, use_rc ? HP_SETRC : NULL, ck, N, ptrs);
+	rc = ptrheap_add(H, ptr);
 
-	VCOVER(H != NULL && use_rc && N == HP_MAXN && HP_E(H->elems, 0) == ptrs[HP_MAXN - 1]);
-	VCOVER1(H != NULL && !use_rc && N >= 3 && HP_E(H->elems, 0) == ptrs[0]);
-	VCOVER(H == NULL && N > 1);
-	VCOVER(H != NULL && N == 0);
+	__CPROVER_assert(rc == 0 || (H->nelems == n && H_l_ea->buf == buf0 && H_l_ea->size == n * sizeof(void *) &&
+	    H_l_ea->alloc == H_l_alloc), "failed add leaves the heap as it was");
+	VCOVER(rc == 0 && use_rc && n == HP_MAXN - 1 && HP_E(H->elems, 0) == ptr);
+	VCOVER(rc == 0 && n >= 3 && HP_E(H->elems, n) == ptr && H_l_ea->buf != buf0);	/* stayed at the bottom, list reallocated */
+	VCOVER(rc == -1 && n > 0 && use_rc);
+	VCOVER(rc == 0 && n == 0);
 	/* release everything with the normal calls: the memory-leak obligation shows nothing else is live */
-	ptrheap_free(H);
-	free(ptrs); free(ck);
+	free(HP_EA(H->elems)->buf); free(H->elems); free(H); free(ck);
 	HP_FREE_RECS();
 }
